@@ -493,20 +493,17 @@ fn run(prop: &str, tier: &str) -> i32 {
         "amounts are {0..3} plus boundary values, two denominations, five actors; addresses are MockApi bech32 addresses; CanExecute is asked for valid sender addresses only".into(),
         "message kinds gated behind cosmwasm_1_3 / cosmwasm_2_0 (FundCommunityPool, CosmosMsg::Any) are not in the alphabet".into(),
     ];
-    use rayon::prelude::*;
     let seed = mc::report::seed();
-    let runs: Vec<RunStats> = cfgs
-        .par_iter()
-        .map(|(c, d)| {
-            let m = Cw1Model { cfg: c.clone() };
-            let b = Bounds {
-                max_depth: *d,
-                max_states: 8_000_000,
-                max_secs: if thorough { 1500.0 } else { 100.0 },
-            };
-            mc::bfs(&m, &b, &known, seed)
-        })
-        .collect();
+    let runs: Vec<RunStats> = mc::run_pooled(cfgs.len(), |i| {
+        let (c, d) = &cfgs[i];
+        let m = Cw1Model { cfg: c.clone() };
+        let b = Bounds {
+            max_depth: *d,
+            max_states: 8_000_000,
+            max_secs: if thorough { 1500.0 } else { 100.0 },
+        };
+        mc::bfs(&m, &b, &known, seed)
+    });
     rep.runs = runs;
     rep.finish()
 }
